@@ -177,6 +177,13 @@ def run(res, replay=None):
                 gens = [[(i + 0.5) / cnt[0], (j + 0.5) / cnt[1] if dim >= 2 else 0.3, (l + 0.5) / cnt[2] if dim >= 3 else 0.7]
                         for i in range(cnt[0]) for j in range(cnt[1]) for l in range(cnt[2])]
                 inputs.append({"family": "exact-lattice", "dim": dim, "periodic": per, "anchor": [0.0, 0.0, 0.0], "width": [1.0, 1.0, 1.0], "gens": gens, "mask": None})
+    if not replay:
+        # cells with many (> 64) planes and faces, 3D and 2D: any size-dependent change of container (e.g. a hash map with a random seed)
+        # must not change the order of the faces
+        for j in range(4 if tier == "quick" else 16):
+            inp = T.gen_input(rng, "manyfaces", 3 if j % 2 == 0 else 2, j % 4 >= 2, nmax=40)
+            if not T.known_class(inp):
+                inputs.append(inp)
     wd = os.path.join(C.CACHE, "run", "c09")
     os.makedirs(wd, exist_ok=True)
     cf = os.path.join(wd, "c09.cases")
